@@ -1,11 +1,11 @@
-(* C16 — lemmas. *)
-From Coq Require Import List Bool Arith NArith Lia Permutation Sorted.
-From C16 Require Import Model.
+(* C16 — lemmas (collected): ProofsSearch (classification, merge, page), ProofsFetch (streams). *)
+From Coq Require Import List Bool Arith NArith Lia.
+From C16 Require Export Model CaseDefs ProofsSearch ProofsFetch.
 Import ListNotations.
 
-Lemma align_length : forall lt req M, length (align lt req M) = length req.
+Lemma hot_refuses_spec : forall mature oldest from,
+  hot_refuses mature oldest from = true <-> mature = true /\ (oldest = 0 \/ from < oldest)%N.
 Proof.
-  intros lt req; induction req as [|cur r IH]; intros M; simpl; auto.
-  destruct (drop_ff lt cur M) as [|d M2]; simpl; [now rewrite IH|].
-  destruct (key_eqb cur (fst d)); simpl; now rewrite IH.
+  intros. unfold hot_refuses, earlier_than_oldest.
+  rewrite andb_true_iff, orb_true_iff, N.eqb_eq, N.ltb_lt. tauto.
 Qed.
